@@ -123,6 +123,14 @@ pub fn c13(known: &Known, full: bool) -> SessionScenario {
     }
 }
 
+/// C13's reduced alphabet explored without de-duplication (short histories): state a change might add
+/// and the snapshot cannot see is not merged away.
+pub fn c13_nodedup(known: &Known) -> SessionScenario {
+    let mut sc = c13(known, false);
+    sc.dedup = false;
+    sc
+}
+
 /// Findings of C08 that only change what the requesting client itself is told or sees (a publish on
 /// a `$SYS` key is delivered): they neither stop the server nor touch another session, so C17 lets
 /// the reference follow the server there without reporting; C08 reports them.
